@@ -4,8 +4,8 @@
    All distances are squared Euclidean distances over Z (see Model.v). *)
 From Coq Require Import ZArith List Bool Lia Permutation.
 Import ListNotations.
-From FV.C16 Require Import Model ModelSnap ProofsSort ProofsKnn ProofsKnnCfg ProofsHd ProofsHop ProofsBuild ProofsScale ProofsSnap.
-From FV.C16.gen Require Import Bounds KnnCfg.
+From FV.C16 Require Import Model ModelSnap ModelHdCfg ProofsSort ProofsKnn ProofsKnnCfg ProofsHd ProofsHdCfg ProofsHop ProofsBuild ProofsScale ProofsSnap.
+From FV.C16.gen Require Import Bounds KnnCfg HdCfg.
 Open Scope Z_scope.
 
 (* possible_dist_min: the clamped distance is a lower bound for every point of the box *)
@@ -411,6 +411,62 @@ Proof.
   pose proof (box_ub_sound a b p' p Ha Hb). lia.
 Qed.
 
+(* Tie T for the control flow of the Hausdorff kernel: gen/HdCfg.v holds the five comparisons of
+   _calc_directed_hausdorff_nodes read off the current source (skip of a popped cell and push
+   filter in calc_frm_node; skip of a popped cell and the `hi <= HD -> return 0` shortcut in
+   calc_frm; the break of the main loop); translate/c16_loops.py accepts the kernel only if
+   everything else matches the text the model mirrors.  The directed and the symmetric distance
+   are proved for EVERY accepted configuration: a cell of B may be skipped on `>` or `>=`, the
+   shortcut and the break may fire on `<=` or `<`; the two comparisons of calc_frm_node are free
+   (whatever is skipped there, the per-leaf value stays a valid upper bound). *)
+Theorem C16_hausdorff_cfg_correct :
+  forall cfg, hcfg_ok cfg = true ->
+  forall pick fuel directed tA tB A B,
+    pick_ok pick ->
+    validb tA = true -> validb tB = true -> tree_of tA A -> tree_of tB B -> A <> [] -> B <> [] ->
+    (size tA < fuel)%nat -> (size tB < fuel)%nat ->
+    hausdorff_cfg cfg pick fuel directed tA tB =
+      Some (if directed then hausdorff_directed_spec A B else hausdorff_spec A B).
+Proof. intros. apply HdCfg.hausdorff_correct; auto. Qed.
+
+(* per-run obligation: the configuration translated from /repo is an accepted one *)
+Theorem C16_gen_hd_cfg_ok : hcfg_ok gen_hcfg = true.
+Proof. vm_compute. reflexivity. Qed.
+
+Theorem C16_hausdorff_translated_correct :
+  forall pick fuel directed tA tB A B,
+    pick_ok pick ->
+    validb tA = true -> validb tB = true -> tree_of tA A -> tree_of tB B -> A <> [] -> B <> [] ->
+    (size tA < fuel)%nat -> (size tB < fuel)%nat ->
+    hausdorff_cfg gen_hcfg pick fuel directed tA tB =
+      Some (if directed then hausdorff_directed_spec A B else hausdorff_spec A B).
+Proof. intros. apply C16_hausdorff_cfg_correct; auto using C16_gen_hd_cfg_ok. Qed.
+
+(* with the comparisons of the unchanged code the configured kernel IS the hand model *)
+Theorem C16_hausdorff_cfg_code_is_model :
+  forall pick fuel directed tA tB,
+    hausdorff_cfg hcfg_code pick fuel directed tA tB = hausdorff pick fuel directed tA tB.
+Proof. intros. apply hausdorff_code_is_model. Qed.
+
+(* non-vacuity: four of the 3 * 2 * 2 * 6 * 6 accepted configurations differ from the code's and
+   one that is not accepted (skip a cell of B on `<`) indeed computes a wrong distance *)
+Definition hd_exA : list P := [(0,0,0); (9,0,0); (0,7,0)].
+Definition hd_exB : list P := [(1,0,0); (8,1,0); (0,0,3); (5,5,5)].
+Definition hd_bad : hcfg := {| ub_prune := Gt; ub_push := Lt; nn_prune := Lt; nn_short := Le; loop_break := Le |}.
+Example C16_hausdorff_cfg_inhabited :
+  hcfg_ok hcfg_code = true /\
+  hcfg_ok {| ub_prune := Ge; ub_push := Le; nn_prune := Ge; nn_short := Lt; loop_break := Lt |} = true /\
+  hcfg_ok {| ub_prune := Lt; ub_push := Gt; nn_prune := Gt; nn_short := Le; loop_break := Le |} = true /\
+  hcfg_ok hd_bad = false /\
+  (let tA := snapped_octree 8 (hd_exA ++ hd_exB) hd_exA in
+   let tB := snapped_octree 8 (hd_exA ++ hd_exB) hd_exB in
+   let sc := map (scale_pt (snap_scale 8)) in
+   hausdorff_cfg {| ub_prune := Lt; ub_push := Gt; nn_prune := Ge; nn_short := Lt; loop_break := Lt |}
+                 pop_min (S (size tA + size tB)) false tA tB = Some (hausdorff_spec (sc hd_exA) (sc hd_exB)) /\
+   hausdorff_cfg hd_bad pop_min (S (size tA + size tB)) true tA tB
+     <> Some (hausdorff_directed_spec (sc hd_exA) (sc hd_exB))).
+Proof. vm_compute. repeat split; try reflexivity; try discriminate. Qed.
+
 Print Assumptions C16_knn_search_correct.
 Print Assumptions C16_knn_code_queue.
 Print Assumptions C16_hausdorff_correct.
@@ -423,3 +479,5 @@ Print Assumptions C16_knn_translated_search_correct.
 Print Assumptions C16_knn_on_snapped_octree.
 Print Assumptions C16_snapped_cells_on_grid.
 Print Assumptions C16_snap_grid_spec.
+Print Assumptions C16_hausdorff_cfg_correct.
+Print Assumptions C16_hausdorff_translated_correct.
